@@ -42,6 +42,8 @@ def units(tier, seed):
         {"sid": "table", "family": "table", "size": 10 if q else 16, "donor": ("table", 12), "max_slices": 330},
         {"sid": "strict_hb", "family": "strict", "size": 9 if q else 11, "donor": ("strict", 9), "max_slices": 30 if q else 200},
         {"sid": "hp", "family": "hp", "size": 9 if q else 11, "donor": ("hp", 8), "max_slices": 30 if q else 200},
+        # text with astral characters (two UTF-16 units each) before / after / around the range
+        {"sid": "list", "family": "astral", "size": 5 if q else 6, "donor": ("astral", 4), "max_slices": 16 if q else 60},
     ]
     extra = [
         {"sid": "title", "family": "title", "size": 9 if q else 12, "donor": ("title", 9), "max_slices": 30 if q else 200},
@@ -84,6 +86,30 @@ def subseq_mod_marks(small, big):
     return all(any(x == y for y in it) for x in [strip(s) for s in small])
 
 
+def split_mod_fillers(model, L1, pre, suf):
+    """L1 = pre + mid + suf where generatable leaf nodes (the empty fillers a schema may require, e.g. the image of
+    `figure: "caption figureimage"`) may additionally stand anywhere, also before / inside / behind pre and suf.
+    Returns mid, or None when pre / suf are not kept in order and unmodified."""
+    def filler(x):
+        return x[0] == "l" and model.types[x[1]].generatable
+
+    i = 0
+    for x in pre:
+        while i < len(L1) and L1[i] != x and filler(L1[i]):
+            i += 1
+        if i >= len(L1) or L1[i] != x:
+            return None
+        i += 1
+    j = len(L1)
+    for x in reversed(suf):
+        while j > i and L1[j - 1] != x and filler(L1[j - 1]):
+            j -= 1
+        if j <= i or L1[j - 1] != x:
+            return None
+        j -= 1
+    return L1[i:j]
+
+
 def check_result(c, d, T, op, status, tr, exc, res, total):
     model = c.model
     size = len(T)
@@ -119,11 +145,11 @@ def check_result(c, d, T, op, status, tr, exc, res, total):
         ins = tk.leaf_seq(tk.content_tokens(model, [op["node"]]))
     else:
         ins = []
-    if len(L1) < len(pre) + len(suf) or L1[: len(pre)] != pre or (suf and L1[len(L1) - len(suf):] != suf):
+    mid = split_mod_fillers(model, L1, pre, suf)
+    if mid is None:
         res.violate("c11.outside-content-changed", case, jkey(rj)[:300], "prefix/suffix of leaf sequence kept",
                     fingerprint="c11.outside-content-changed:" + op["op"], size=size)
         return
-    mid = L1[len(pre): len(L1) - len(suf)]
     if op["op"] in ("delete", "delete_range"):
         mid = [x for x in mid if x[0] == "t" or not model.types[x[1]].generatable]
         if mid:
@@ -163,7 +189,12 @@ def check_doc(c, sc, d, pools, res, total, node=None, groups=("replace",), with_
     T = tk.doc_tokens(model, d)
     n = len(T)
     res.states += 1
+    # positions between the two UTF-16 units of one astral character are not document positions in this port
+    # (a Python string cannot be cut there): outside the domain
+    mid = {i for i, t in enumerate(T) if t[0] == "t" and 0xDC00 <= t[1] <= 0xDFFF}
     for op in ops.enumerate_ops(model, n, pools, groups=groups):
+        if mid and any(op.get(k) in mid for k in ("from", "to", "pos")):
+            continue
         engine.kick(10)
         res.transitions += 1
         try:
@@ -177,6 +208,8 @@ def check_doc(c, sc, d, pools, res, total, node=None, groups=("replace",), with_
     # replace_step: returns a step that applies, or None
     for a in range(n + 1):
         for b in range(a, n + 1):
+            if a in mid or b in mid:
+                continue
             for sl in pools["slices"][:20]:
                 engine.kick(10)
                 res.transitions += 1
